@@ -42,7 +42,12 @@ func VerifNewHostInfo(hostID string, addr net.IP, port int, dc, rack string, tok
 
 // VerifNewQuery returns a query that reports the given keyspace and routing key.
 func VerifNewQuery(keyspace string, routingKey []byte) *Query {
-	return &Query{routingKey: routingKey, getKeyspace: func() string { return keyspace }}
+	q := &Query{routingKey: routingKey, getKeyspace: func() string { return keyspace }}
+	if routingKey == nil {
+		// no routing information: like a query created with Session.Bind before binding
+		q.binding = func(*QueryInfo) ([]interface{}, error) { return nil, nil }
+	}
+	return q
 }
 
 // VerifInitTokenAware wires a token-aware policy to a keyspace-metadata source, which
